@@ -77,7 +77,11 @@ func runOne(t *testing.T, def *CheckDef, tier string, seed int64, tape *Tape, ke
 	start := time.Now()
 	dir := filepath.Join(scratch(), fmt.Sprintf("%s-%d-%d", def.ID, seed, rand.Int63()))
 	_ = os.MkdirAll(dir, 0o777)
-	defer os.RemoveAll(dir)
+	if os.Getenv("SIM_KEEP") == "" {
+		defer os.RemoveAll(dir)
+	} else {
+		fmt.Println("KEEP", dir)
+	}
 	r := newRun(def.ID, tier, seed, tape, dir)
 	func() {
 		defer func() {
@@ -98,6 +102,7 @@ func runOne(t *testing.T, def *CheckDef, tier string, seed int64, tape *Tape, ke
 				r.teardown()
 			}()
 			r.simStart = time.Now()
+			r.driverID = goid()
 			def.Run(r)
 		})
 	}()
@@ -325,7 +330,9 @@ func SimMain(t *testing.T) {
 	}
 	litefs.TraceLog.SetOutput(io.Discard)
 	go watchdog()
-	defer os.RemoveAll(scratch())
+	if os.Getenv("SIM_KEEP") == "" {
+		defer os.RemoveAll(scratch())
+	}
 	tier := os.Getenv("SIM_TIER")
 	if tier == "" {
 		tier = "quick"
